@@ -206,6 +206,11 @@ def run_slice(ctx):
 
     # ---- (d) live cluster
     out, err = cl_f.result()
+    attempts = 1
+    while out is not None and attempts < 3 and any((f.get('key') or '').startswith('raft:cluster-no-progress') for f in out.get('failures') or []):
+        ctx.notes.append('raft slice: live cluster attempt %d made no progress (%s); run again' % (attempts, [f.get('detail') for f in out['failures']][:1]))
+        out, err = _cluster(ctx, quick)
+        attempts += 1
     if out is None:
         ctx.inconclusive.append('raft slice: ' + err)
     else:
@@ -215,7 +220,7 @@ def run_slice(ctx):
                                  'replay': {'engine': 'raftfsm', 'args': [], 'trace': {'mode': 'cluster', 'steps': []}}})
         evs = out.get('events') or []
         cov['cluster'] = {'nodes': 3, 'apply_events': len(evs), 'max_height': max([e['h'] for e in evs] or [0]), 'leaders': out.get('leaders'),
-                          'restarted_node_events': sum(1 for e in evs if e['inc'] > 1), 'final': out.get('final'), 'wall_s': round(out.get('wall_s', 0), 1),
+                          'restarted_node_events': sum(1 for e in evs if e['inc'] > 1), 'final': out.get('final'), 'attempts': attempts, 'wall_s': round(out.get('wall_s', 0), 1),
                           'failures': len(out.get('failures') or [])}
         ctx.log('raft slice: live 3-node cluster: %d Apply events up to height %d, leaders %s, %d failures (%.0fs)'
                 % (len(evs), cov['cluster']['max_height'], out.get('leaders'), len(out.get('failures') or []), out.get('wall_s', 0)))
